@@ -36,7 +36,7 @@ def grid(name, tier):
     return pts
 
 
-def profile_list(name, cfg, tier):
+def profile_list(name, cfg, tier, label=''):
     n = NMAX[tier]
     ps = []
     for N in range(1, n + 1):
@@ -46,6 +46,13 @@ def profile_list(name, cfg, tier):
             ps.append([v])
             ps.append([1] * v)
             ps.append([v - 2, 1, 1] if v > 3 else [v])
+    if label in ('base', 'default', 'default-s256'):
+        # the same N in very different distributions, at a scale where buffers, pools and levels are no longer tiny
+        big = [600, 1025] if name not in ('CGKO06.SSE1', 'CGKO06.SSE2') else [100]
+        if tier != 'quick' and name not in ('CGKO06.SSE1', 'CGKO06.SSE2'):
+            big.append(3000)
+        for N in big:
+            ps += [[N], [1] * N, [N // 2, N - N // 2], [N - 2, 1, 1], [N // 15] * 14 + [N - 14 * (N // 15)]]
     out, seen = [], set()
     for p in ps:
         if tuple(p) in seen or not sse.valid_profile(name, cfg, p):
@@ -137,7 +144,7 @@ def run_unit(p, tier, seed):
     name, label, cfg = p['scheme'], p['label'], p['cfg']
     classes = {}
     members = {}
-    for prof in (p.get('profiles') or profile_list(name, cfg, tier)):
+    for prof in (p.get('profiles') or profile_list(name, cfg, tier, label)):
         if not sse.valid_profile(name, cfg, prof):
             continue
         pi = sse.pi_param(name, cfg, prof)
